@@ -705,7 +705,8 @@ class State:
         self.memory.set_slice(start=loc, stop=stop, value=data)
 
     def ret(self, subst: dict = None) -> ByteVec:
-        loc: int = self.mloc(subst)
+        # the offset is irrelevant when the size is zero (no memory is accessed)
+        loc: int = self.mloc(subst, check_size=False)
         size: int = int_of(self.popi(), "symbolic return data size", subst)
 
         return self.mslice(loc, size)
